@@ -125,14 +125,15 @@ Section Ts.
     - exact Ha.
   Qed.
 
-  Theorem ts_report_exact limit file :
-    file_good Ts file = true -> ts_report q limit file = spec_report limit file.
+  (* exact on every admissible file all of whose function nodes have a type the extractor's table lists *)
+  Theorem ts_report_exact_found limit file :
+    file_good Ts file = true ->
+    forallb (fun f => smem (ts_ftype (fn_kind f)) (ts_fn_types q)) (file_functions file) = true ->
+    ts_report q limit file = spec_report limit file.
   Proof.
-    intros Hg. unfold ts_report, spec_report. apply flat_map_ext_in.
+    intros Hg Hfd. unfold ts_report, spec_report. apply flat_map_ext_in.
     pose proof (file_fns_good Ts file Hg) as HF. rewrite Forall_forall in HF |- *. intros f Hf.
-    specialize (HF f Hf).
-    assert (Hfound : smem (ts_ftype (fn_kind f)) ts_function_types = true)
-      by (destruct HF as (_ & _ & _ & Hk); destruct (fn_kind f); try discriminate; reflexivity).
+    specialize (HF f Hf). rewrite forallb_forall in Hfd. pose proof (Hfd f Hf) as Hfound. cbn beta in Hfound.
     unfold report_fn. rewrite Hfound. change ts_skip_cmp with CLe. cbn [cmp_nat].
     destruct (judged (fn_kind f)) eqn:Hj; cbn [andb].
     - rewrite (ts_calc_exact f HF Hj).
@@ -140,6 +141,33 @@ Section Ts.
     - assert (Hk : fn_kind f = FArrowExpr) by (destruct (fn_kind f); try discriminate; reflexivity).
       rewrite (ts_calc_unjudged f Hk). reflexivity.
   Qed.
+
+  (* function kinds whose node type the table found in the source lists *)
+  Definition ts_listed (f : fninfo) : bool := match fn_kind f with FFnExpr | FGen => false | _ => true end.
+
+  Lemma ts_found_all file :
+    file_good Ts file = true ->
+    (q_ts_fn_types_from_code q = false \/ forallb ts_listed (file_functions file) = true) ->
+    forallb (fun f => smem (ts_ftype (fn_kind f)) (ts_fn_types q)) (file_functions file) = true.
+  Proof.
+    intros Hg Hor. pose proof (file_fns_good Ts file Hg) as HF. rewrite Forall_forall in HF.
+    apply forallb_forall. intros f Hf. destruct (HF f Hf) as (_ & _ & _ & Hk).
+    destruct Hor as [H0|Hl].
+    - unfold ts_fn_types. rewrite H0. destruct (fn_kind f); try discriminate; reflexivity.
+    - rewrite forallb_forall in Hl. specialize (Hl f Hf). unfold ts_listed in Hl.
+      unfold ts_fn_types. destruct (q_ts_fn_types_from_code q); destruct (fn_kind f); try discriminate; reflexivity.
+  Qed.
+
+  Theorem ts_report_exact limit file :
+    q_ts_fn_types_from_code q = false -> file_good Ts file = true -> ts_report q limit file = spec_report limit file.
+  Proof. intros H0 Hg. apply ts_report_exact_found; [exact Hg|]. apply ts_found_all; [exact Hg|left; exact H0]. Qed.
+
+  (* confinement of q_ts_fn_types_from_code: whatever the flag, exact on files without function expressions and
+     generator functions *)
+  Theorem ts_report_exact_listed limit file :
+    file_good Ts file = true -> forallb ts_listed (file_functions file) = true ->
+    ts_report q limit file = spec_report limit file.
+  Proof. intros Hg Hl. apply ts_report_exact_found; [exact Hg|]. apply ts_found_all; [exact Hg|right; exact Hl]. Qed.
 End Ts.
 
 (* ------------------------------------------------------------------ Rust *)
@@ -203,6 +231,8 @@ Section Py.
   Lemma py_calc_exact f : fn_good Py f -> py_calc q (fn_body f) = sh 1 (maxl (map nest (fn_body f))).
   Proof.
     intros (Hw & Ha & Hn & _). unfold py_calc, py_start. rewrite Hq1.
+    rewrite (maxl_map_ext _ (fun st => py_visit (py_controls q) (to_py st) 1 false))
+      by (apply Forall_forall; intros x _; apply py_visit_src_eq).
     apply (py_calc_value (py_controls q) (kind_ok Py) py_facts 1); assumption.
   Qed.
 
@@ -237,6 +267,8 @@ Section PyActual.
     fn_good Py f -> py_calc q (fn_body f) = sh py_start_depth (maxl (map nest (fn_body f))).
   Proof.
     intros (Hw & Ha & Hn & _). unfold py_calc, py_start. rewrite Hq1.
+    rewrite (maxl_map_ext _ (fun st => py_visit (py_controls q) (to_py st) py_start_depth false))
+      by (apply Forall_forall; intros x _; apply py_visit_src_eq).
     apply (py_calc_value (py_controls q) (kind_ok Py) py_facts_actual py_start_depth); assumption.
   Qed.
 
@@ -309,6 +341,9 @@ Theorem cross_language q limit file :
   report Py q limit file = report Ts q limit file /\ report Ts q limit file = report Rs q limit file.
 Proof.
   intros H1 H3 H4 Hl Gp Gt Gr. cbn [report].
-  rewrite (py_report_exact q H1 limit file Hl Gp), (ts_report_exact q H3 limit file Gt),
+  assert (Hlisted : forallb ts_listed (file_functions file) = true).
+  { pose proof (file_fns_good Py file Gp) as HF. rewrite Forall_forall in HF. apply forallb_forall. intros f Hf.
+    destruct (HF f Hf) as (_ & _ & _ & Hk). unfold ts_listed. destruct (fn_kind f); try discriminate; reflexivity. }
+  rewrite (py_report_exact q H1 limit file Hl Gp), (ts_report_exact_listed q H3 limit file Gt Hlisted),
           (rs_report_exact q H4 limit file Gr). split; reflexivity.
 Qed.
